@@ -159,9 +159,14 @@ fn check_value<K: Kmer + Serialize>(c: &mut Case, s: &S, full: bool) -> Result<u
     {
         let e = if full { 0xA5u8 } else { (c.rng.next() & 0xff) as u8 };
         for (side, dir) in [(L, Dir::Left), (R, Dir::Right)] {
-            let got: Vec<S> = x.get_extensions(Exts::new(e), dir).iter().map(|y| kstr(y)).collect();
+            let gotk: Vec<K> = x.get_extensions(Exts::new(e), dir);
+            let got: Vec<S> = gotk.iter().map(|y| kstr(y)).collect();
             let exp: Vec<S> = (0..4u8).filter(|b| e & bit(side, *b) != 0).map(|b| ext_str(s, side, b)).collect();
             ensure!(got == exp, "get_extensions({:#04x}, side {}) of {}", e, side, ascii(s));
+            for (y, m) in gotk.iter().zip(exp.iter()) {
+                ensure!(*y == K::from_bytes(m), "get_extensions({:#04x}, side {}) of {}: result spells {} but is != from_bytes of it", e, side, ascii(s), ascii(m));
+                check_unused_lanes(y, "get_extensions")?;
+            }
             ops += 1;
         }
     }
@@ -350,7 +355,7 @@ pub fn run_c10(ctx: &Ctx) {
 
 fn c11_step<K: Kmer + Serialize>(c: &mut Case, x: &mut K, m: &mut S) -> &'static str {
     let k = K::k();
-    match c.rng.below(10) {
+    match c.rng.below(11) {
         0 => {
             let b = c.rng.base();
             *x = x.extend_left(b);
@@ -408,7 +413,7 @@ fn c11_step<K: Kmer + Serialize>(c: &mut Case, x: &mut K, m: &mut S) -> &'static
                 "set"
             }
         }
-        _ => {
+        9 => {
             let (mn, _) = x.min_rc_flip();
             *x = mn;
             let r = rc(m);
@@ -416,6 +421,17 @@ fn c11_step<K: Kmer + Serialize>(c: &mut Case, x: &mut K, m: &mut S) -> &'static
                 *m = r;
             }
             "min_rc_flip"
+        }
+        _ => {
+            // one of the k-mers produced by get_extensions
+            let e = ((c.rng.next() & 0xff) as u8) | 0x11;
+            let (side, dir) = if c.rng.chance(1, 2) { (L, Dir::Left) } else { (R, Dir::Right) };
+            let v = x.get_extensions(Exts::new(e), dir);
+            let bases: Vec<u8> = (0..4u8).filter(|b| e & bit(side, *b) != 0).collect();
+            let i = c.rng.below(v.len());
+            *x = v[i];
+            *m = ext_str(m, side, bases[i]);
+            "get_extensions"
         }
     }
 }
